@@ -349,6 +349,16 @@ fn noise(out: &mut Out, rng: &mut Sm, thorough: bool) {
             let mut tape = Tape { data: rng.bytes(1 << 16), pos: 0 };
             let r = catch(AssertUnwindSafe(|| verif_dp::l1boundsum_add_noise(&t, &strategy, &mut v, &mut tape)));
             noise_case(out, "FP64", &format!("l1:{}", max), en, ed, &before, &v, &tape, r.map(|x| x.is_ok()).unwrap_or(false));
+            // the scale is 2 * max / epsilon >= 2^63 here: noise of that scale is, in at least one of two coordinates,
+            // further than 2^32 from zero (all but a 2^-60 fraction of the time) — a sensitivity that lost its top bit is not
+            if ed.checked_mul(8).map_or(true, |x| en <= x) {
+                let pm = modulus::<Field64>();
+                let far = before.iter().zip(&v).any(|(b, a)| {
+                    let d = (u128::from(u64::from(*a)) + pm - u128::from(u64::from(*b))) % pm;
+                    d.min(pm - d) >= 1 << 32
+                });
+                out.oracle(far, || format!("noise L1BoundSum<Field64> max={} epsilon={}/{}", max, en, ed), || "noise of scale >= 2^63 stayed within 2^32 of zero in every coordinate: the sensitivity 2*max was not used".into());
+            }
             let max = [(1u128 << 127) + 5, 1u128 << 127, modulus::<Field128>() - 1][rng.below(3) as usize];
             let t = L1BoundSum::<Field128, PS128>::new(max, 2, 2).unwrap();
             let mut v: Vec<Field128> = (0..2).map(|_| Field128::from(rng.u128() % 1000)).collect();
